@@ -80,7 +80,8 @@ class Line:
         fault = self._fault()
         frames, _ = R.split_wire(data)
         fr = frames[0][1] if frames else None
-        self.trace.append(("line", self.loop.time(), direction, fr.sig() if fr else None, fault))
+        cancel = frames[0][0] if frames else False
+        self.trace.append(("line", self.loop.time(), direction, fr.sig() if fr else None, fault, cancel))
         if fault != "ok":
             self.faults_applied[direction][fault] = self.faults_applied[direction].get(fault, 0) + 1
         if fault == "drop":
@@ -126,5 +127,6 @@ class HostTransport:
         if self._closing:
             return
         self._closing = True
+        self.line.sink["n2h"] = lambda chunk: None  # a closed port delivers nothing
         if self.protocol is not None:
             self.line.loop.call_soon(self.protocol.connection_lost, None)
